@@ -361,6 +361,7 @@ function iter(v,kind,at,eff,limit,again){var it=kind==="sym"?v[Symbol.iterator](
 function gopd(v,k){var d=Object.getOwnPropertyDescriptor(v,k);return d===undefined?undefined:[d.value,d.writable,d.enumerable,d.configurable]}
 function nkeys(v){var ks=Reflect.ownKeys(v),n=0;for(var i=0;i<ks.length;i++){if(typeof ks[i]==="string"&&String(ks[i]>>>0)===ks[i])n++}return n}
 function cctor(id,k){return function(n){L.push("o"+id,n);return V[k]||{}}}
+function tls(v,id,at,eff){var n=0,f=function(){"use strict";var i=n++;L.push("l"+id,this);if(i===at&&eff)eff();return "e"+i};var sn=Number.prototype.toLocaleString,sb=BigInt.prototype.toLocaleString;Number.prototype.toLocaleString=f;BigInt.prototype.toLocaleString=f;try{return v.toLocaleString()}finally{Number.prototype.toLocaleString=sn;BigInt.prototype.toLocaleString=sb}}
 function setCtor(o,c){Object.defineProperty(o,"constructor",{value:c,writable:true,configurable:true,enumerable:false})}
 `
 
@@ -403,6 +404,8 @@ func (c *jsCtx) js(op *Op) string {
 		return fmt.Sprintf("(function(){var r=%s.setFromHex(%s);return [r.read,r.written]})()", v, a)
 	case "iter":
 		return fmt.Sprintf("iter(%s,%s,%d,%s,%d,%v)", v, jsString(op.X), op.At, c.effs(op.E), op.N, op.Fl == "again")
+	case "tls":
+		return fmt.Sprintf("tls(%s,%d,%d,%s)", v, op.N, op.At, c.effs(op.E))
 	case "spread":
 		return fmt.Sprintf("[...%s]", v)
 	case "get":
